@@ -114,13 +114,25 @@ pub fn to_double<K: Kind>(name: &'static str) {
 pub fn type_of_ctor<K: Kind>(name: &'static str, tyname: &'static str) {
     let a = K::sym();
     let v = construct_type(name, vec![a.cel()]);
-    if v.is_err() {
-        witness!(true, "conversion rejected");
-        core::mem::forget(v);
-        return;
-    }
+    // rebuild the converted value with a concrete kind per arm (a value whose discriminant
+    // is symbolic - "int or error" - would drag every variant's drop glue into the query)
+    let t = match classify(&v) {
+        R::Err => {
+            witness!(true, "conversion rejected");
+            core::mem::forget(v);
+            return;
+        }
+        R::I(i) => construct_type("type", vec![CelValue::Int(i)]),
+        R::U(u) => construct_type("type", vec![CelValue::UInt(u)]),
+        R::F(f) => construct_type("type", vec![CelValue::Float(f)]),
+        R::B(b) => construct_type("type", vec![CelValue::Bool(b)]),
+        _ => {
+            assert!(false, "numeric/bool constructor must yield a number, a bool or an error");
+            return;
+        }
+    };
+    core::mem::forget(v);
     witness!(true, "conversion accepted");
-    let t = construct_type("type", vec![v]);
     match &t {
         CelValue::Type(n) => assert!(n.as_str() == tyname, "type(T(x)) must be T"),
         _ => assert!(false, "type() must return a type"),
@@ -241,29 +253,79 @@ pub fn string_of_bytes() {
     core::mem::forget(r);
 }
 
-/// wrong arity is an error (0, 2, 3 arguments), except timestamp() and duration(s, n)
+/// too many arguments (2, 3) is an error
 pub fn arity(name: &'static str) {
     let x: i64 = any();
-    let r0 = construct_type(name, vec![]);
     let r2 = construct_type(name, vec![CelValue::Int(x), CelValue::Int(x)]);
     let r3 = construct_type(name, vec![CelValue::Int(x), CelValue::Int(x), CelValue::Int(x)]);
     witness!(true, "reached");
-    assert!(r0.is_err(), "constructor with no argument must be an error");
     assert!(r2.is_err(), "constructor with two arguments must be an error");
     assert!(r3.is_err(), "constructor with three arguments must be an error");
-    core::mem::forget((r0, r2, r3));
+    core::mem::forget((r2, r3));
 }
 
 /// duration(i) / duration(s, n): value or error, never a different duration
 pub fn duration_ctor() {
     let s: i64 = any();
-    let r = construct_type("duration", vec![CelValue::Int(s)]);
+    // explicit padding: the dispatcher pads missing arguments with null itself, through
+    // `Vec::extend`, which is what makes the one-argument call intractable for the solver
+    let r = construct_type("duration", vec![CelValue::Int(s), CelValue::Null]);
     let want = chrono::Duration::new(s, 0);
     witness!(want.is_none(), "out of range seconds");
     match (&r, want) {
         (CelValue::Duration(d), Some(w)) => assert!(*d == w, "duration(i) is i seconds"),
         (CelValue::Err(_), None) => {}
         _ => assert!(false, "duration(i) is i seconds or an error when not representable"),
+    }
+    core::mem::forget(r);
+}
+
+/// duration(s, n): n outside 0..1e9 or an unrepresentable length is an error, never a
+/// different duration
+pub fn duration_ctor2() {
+    let s: i64 = any();
+    let n: i64 = any();
+    let r = construct_type("duration", vec![CelValue::Int(s), CelValue::Int(n)]);
+    let want = if n >= 0 && n < 1_000_000_000 { chrono::Duration::new(s, n as u32) } else { None };
+    witness!(n > u32::MAX as i64, "nanos above u32");
+    witness!(want.is_some(), "valid pair");
+    match (&r, want) {
+        (CelValue::Duration(d), Some(w)) => assert!(*d == w, "duration(s, n) is s seconds and n nanoseconds"),
+        (CelValue::Err(_), None) => {}
+        _ => assert!(false, "duration(s, n) with n outside 0..1e9 or out of range must be an error"),
+    }
+    core::mem::forget(r);
+}
+
+/// timestamp(int) / timestamp(uint): the instant that many seconds after the epoch, or an
+/// error when it is not representable - never a different instant
+pub fn timestamp_ctor<K: Kind>() {
+    let a = K::sym();
+    let r = construct_type("timestamp", vec![a.cel()]);
+    let secs: Option<i64> = match a {
+        V::I(i) => Some(i),
+        V::U(u) => {
+            witness!(u > i64::MAX as u64, "uint above the int range");
+            if u <= i64::MAX as u64 {
+                Some(u as i64)
+            } else {
+                None
+            }
+        }
+        _ => None,
+    };
+    // range predicate only: seconds -> civil date -> seconds inside one query does not finish
+    match (&r, secs) {
+        (CelValue::TimeStamp(_), Some(s)) => {
+            witness!(true, "representable instant");
+            // chrono's representable years are -262143..=262142: generous numeric bracket
+            assert!(s > -8_334_700_000_000 && s < 8_210_300_000_000, "timestamp() accepted seconds outside chrono's range");
+        }
+        (CelValue::Err(_), Some(s)) => {
+            assert!(s < -8_334_500_000_000 || s > 8_210_200_000_000, "timestamp() rejected seconds well inside the representable range");
+        }
+        (CelValue::Err(_), None) => {}
+        _ => assert!(false, "timestamp(uint above the int range) must be an error"),
     }
     core::mem::forget(r);
 }
